@@ -34,10 +34,15 @@ func runStopRace(c stopRaceCase, res *hx.Result) {
 	parked := make(chan struct{}, 1)
 	inFS := map[*sfs.Handle]int{}
 	var releasedInUse []string
-	park := map[string]string{"attach": "attach", "clone": "walk", "walk": "walk", "create": "create", "open": "opendir", "stat": "stat"}[c.Op]
+	park := map[string]string{"attach": "attach", "clone": "walk", "walk": "walk", "create": "create", "open": "opendir", "stat": "stat",
+		"mkdir": "opendir", "mkdir-openfails": "opendir"}[c.Op]
 	armed := false
 	fs.Decide = func(call string, h *sfs.Handle) sfs.Expect {
-		return sfs.Expect{Call: call, Out: "ok", K: 1, Dir: call != "create"}
+		if call == "opendir" && c.Op == "mkdir-openfails" {
+			// the session's own OpenDir of the directory it has just created fails (it was cancelled)
+			return sfs.Expect{Call: call, Out: "fail"}
+		}
+		return sfs.Expect{Call: call, Out: "ok", K: 1, Dir: call != "create" || c.Op == "mkdir" || c.Op == "mkdir-openfails"}
 	}
 	fs.Gate = func(ctx context.Context, enter bool, call string, h *sfs.Handle) {
 		mu.Lock()
@@ -103,6 +108,8 @@ func runStopRace(c stopRaceCase, res *hx.Result) {
 		m = p9p.MessageTwalk{Fid: 0, Newfid: 1, Wnames: []string{"a"}}
 	case "create":
 		m = p9p.MessageTcreate{Fid: 0, Name: "f", Perm: 0644, Mode: p9p.ORDWR}
+	case "mkdir", "mkdir-openfails":
+		m = p9p.MessageTcreate{Fid: 0, Name: "d", Perm: p9p.DMDIR | 0755, Mode: p9p.OREAD}
 	case "open":
 		m = p9p.MessageTopen{Fid: 0, Mode: p9p.OREAD}
 	case "stat":
@@ -187,7 +194,7 @@ func StopRace(args []string) {
 	res := hx.NewResult()
 	defer res.Write(*out)
 	var cases []stopRaceCase
-	for _, op := range []string{"attach", "clone", "walk", "create", "open", "stat"} {
+	for _, op := range []string{"attach", "clone", "walk", "create", "open", "stat", "mkdir", "mkdir-openfails"} {
 		for _, f := range []string{"close", "ctx", "readerr"} {
 			for _, d := range []int{0, 15} {
 				cases = append(cases, stopRaceCase{op, f, d, false})
